@@ -22,6 +22,8 @@ def rows():
     out = []
     for d in sorted(os.listdir(ROOT)):
         meta = json.load(open(os.path.join(ROOT, d, "meta.json")))
+        if meta.get("retired"):
+            continue
         files, ctx, old, new = first_change(open(os.path.join(ROOT, d, "patch.diff")).read())
         det = meta.get("detected_by")
         out.append("| %s | %s | `%s`: `%s  ->  %s` | %s |" % (d, ", ".join(files), ctx, old.replace("|", "\\|"), new.replace("|", "\\|"),
